@@ -4,6 +4,8 @@ import (
 	"context"
 	"sync"
 	"sync/atomic"
+
+	"github.com/hack-pad/hackpadfs/mem"
 )
 
 // VerifC13PubSub: no lost wake-up: for every interleaving of Wait, Emit and cancellation, every Wait on
@@ -82,4 +84,24 @@ func VerifC13Pool() {
 	verifReach("pool-done")
 	verifAssert(atomic.LoadInt64(&peak) <= int64(max), "more buffers in use than the pool's bound")
 	verifAssert(atomic.LoadInt64(&p.count) <= int64(max), "the pool provisioned more buffers than its bound")
+}
+
+// VerifC13ManyFail: an archive of several small entries unpacked into a destination that refuses every
+// create: however many background writers fail (the error channel has one slot), the reader finishes, Done()
+// closes, the failure is recorded and an Open returns.
+func VerifC13ManyFail() {
+	n := 2 + verifChoice("entries", verifParam("ENTRIES")-1)
+	for i := 0; i < n; i++ {
+		verifTarAdd(verifName("s", i), int('0'), 0644, 3, 10+i)
+	}
+	dest, err := mem.NewFS()
+	verifAssert(err == nil, "NewFS")
+	st := &c13State{faultFrom: 0}
+	tfs, err := NewReaderFS(context.Background(), verifTarReader(-1, -1), ReaderFSOptions{UnarchiveFS: c13Dest{fs: dest, st: st}})
+	verifAssert(err == nil, "NewReaderFS failed")
+	<-tfs.Done()
+	verifReach("done")
+	verifAssert(tfs.UnarchiveErr() != nil, "every create was refused but unpacking reports success")
+	_, oerr := tfs.Open("s0")
+	verifAssert(oerr != nil, "Open succeeded although unpacking failed")
 }
